@@ -786,7 +786,7 @@ func point(t *task, site int32, cls Class, elig bool) {
 	if n == nil && stallBud > 0 && (cls == ClsSync || cls == ClsGlobal) && t.inCall && rng.float() < cfg.StallP {
 		if o := others(t); len(o) > 0 {
 			stallBud--
-			span := []uint64{20, 200, 2000, 20000}[rng.intn(4)]
+			span := []uint64{20, 200, 2000, 20000, 200000, 1000000}[rng.intn(6)]
 			t.stallTo = gstep + span
 			faultsF["stall"]++
 			if len(t.held) > 0 {
